@@ -60,7 +60,7 @@ class Renderer:
         if len(s["tys"]) > 1: ty = "(" + ty + ")"
         if not s["filt"]: return "#" + ty
         if s["body"] == "spawn": return "#%s { @#{ 1 }, Ok }" % ty
-        if s["body"] == "send": return "#%s { 0 ., Ok }" % ty
+        if s["body"] == "send": return "#%s { 0 s%dr1, Ok }" % (ty, sid)
         if s["body"] == "fail": return "#%s { [1, 0] __integer_divide__, Ok }" % ty
         branches = " ".join("| =%s => Ok" % q_val(v) for v in s["acc"]) or "| []"
         return "#%s { %s }" % (ty, branches)
